@@ -3,12 +3,47 @@
 package core
 
 import (
+	"encoding/binary"
+
 	"github.com/scigolib/hdf5/internal/vrt"
 )
 
-// C11, dataspace pair. rank 1..4 (forked), every dim / max-dim bit symbolic, max-dims present or not.
+// ---- in-memory file for WriteTo/Read pairs ----
+
+type verifMem struct{ data []byte }
+
+func (m *verifMem) WriteAt(p []byte, off int64) (int, error) {
+	end := int(off) + len(p)
+	for len(m.data) < end {
+		m.data = append(m.data, 0)
+	}
+	copy(m.data[off:], p)
+	return len(p), nil
+}
+
+type verifEOFErr struct{}
+
+func (verifEOFErr) Error() string { return "EOF" }
+
+func (m *verifMem) ReadAt(p []byte, off int64) (int, error) {
+	if off < 0 || int(off) >= len(m.data) {
+		return 0, verifEOFErr{}
+	}
+	n := copy(p, m.data[off:])
+	if n < len(p) {
+		return n, verifEOFErr{}
+	}
+	return n, nil
+}
+
+// C11, dataspace pair. rank forked (1..6 quick incl. the maximum 32; 1..32 thorough), every dim / max-dim bit symbolic.
 func VerifH_C11_dataspace() {
-	rank := 1 + vrt.Choice(4)
+	var rank int
+	if vrt.Thorough() {
+		rank = 1 + vrt.Choice(32)
+	} else {
+		rank = []int{1, 2, 3, 4, 31, 32}[vrt.Choice(6)]
+	}
 	dims := make([]uint64, rank)
 	for i := range dims {
 		dims[i] = vrt.U64()
@@ -21,9 +56,9 @@ func VerifH_C11_dataspace() {
 		}
 	}
 	buf, err := EncodeDataspaceMessage(dims, maxDims)
-	vrt.Assert(err == nil, "dataspace-encode-accepts-valid")
+	vrt.AssertNoErr(err, "dataspace-encode-accepts-valid")
 	ds, err := ParseDataspaceMessage(buf)
-	vrt.Assert(err == nil, "dataspace-decode-accepts-encoded")
+	vrt.AssertNoErr(err, "dataspace-decode-accepts-encoded")
 	vrt.Assert(len(ds.Dimensions) == rank, "dataspace-rank")
 	for i := range dims {
 		vrt.Assert(ds.Dimensions[i] == dims[i], "dataspace-dims")
@@ -38,4 +73,203 @@ func VerifH_C11_dataspace() {
 	buf2, _ := EncodeDataspaceMessage(dims, maxDims)
 	vrt.Assert(string(buf) == string(buf2), "dataspace-deterministic")
 	vrt.Covered("dataspace-end")
+}
+
+// superblock v0/v2/v3: WriteTo -> ReadSuperblock
+func VerifH_C11_superblock() {
+	ver := []uint8{0, 2, 3}[vrt.Choice(3)]
+	sb := &Superblock{Version: ver, OffsetSize: 8, LengthSize: 8, Endianness: binary.LittleEndian,
+		BaseAddress: 0, RootGroup: vrt.U64(), RootBTreeAddr: vrt.U64(), RootHeapAddr: vrt.U64()}
+	eof := vrt.U64()
+	m := &verifMem{data: make([]byte, 256)} // a real file continues after the superblock
+	vrt.AssertNoErr(sb.WriteTo(m, eof), "superblock-write-ok")
+	got, err := ReadSuperblock(m)
+	vrt.AssertNoErr(err, "superblock-decode-accepts-encoded")
+	vrt.Assert(got.Version == ver, "superblock-version")
+	vrt.Assert(got.OffsetSize == 8 && got.LengthSize == 8, "superblock-sizes")
+	vrt.Assert(got.RootGroup == sb.RootGroup, "superblock-root-group")
+	if ver == 0 {
+		vrt.Assert(got.RootBTreeAddr == sb.RootBTreeAddr && got.RootHeapAddr == sb.RootHeapAddr, "superblock-v0-cached-addresses")
+	}
+	m2 := &verifMem{data: make([]byte, 256)}
+	_ = sb.WriteTo(m2, eof)
+	vrt.Assert(string(m.data) == string(m2.data), "superblock-deterministic")
+	vrt.Covered("superblock-end")
+}
+
+// object header v2: WriteTo -> ReadObjectHeader, <=3 messages of symbolic type (from a set) and symbolic data (1..6 bytes)
+func VerifH_C11_objectheader_v2() {
+	n := 1 + vrt.Choice(2)
+	if vrt.Thorough() {
+		n = 1 + vrt.Choice(3)
+	}
+	ohw := &ObjectHeaderWriter{Version: 2, Flags: 0}
+	types := []MessageType{MsgDataspace, MsgDatatype, MsgAttribute}
+	for i := 0; i < n; i++ {
+		l := 1 + vrt.Choice(4)
+		ohw.Messages = append(ohw.Messages, MessageWriter{Type: types[vrt.Choice(len(types))], Data: vrt.Bytes(l)})
+	}
+	m := &verifMem{data: make([]byte, 512)}
+	addr := uint64(8 * vrt.Choice(3))
+	sz, err := ohw.WriteTo(m, addr)
+	vrt.AssertNoErr(err, "objectheader-write-ok")
+	vrt.Assert(sz == ohw.Size(), "objectheader-size-equals-bytes-written")
+	sb := &Superblock{Version: 2, OffsetSize: 8, LengthSize: 8, Endianness: binary.LittleEndian}
+	oh, err := ReadObjectHeader(m, addr, sb)
+	vrt.AssertNoErr(err, "objectheader-decode-accepts-encoded")
+	vrt.Assert(len(oh.Messages) == n, "objectheader-message-count")
+	if len(oh.Messages) == n {
+		for i := range ohw.Messages {
+			vrt.Assert(oh.Messages[i].Type == ohw.Messages[i].Type, "objectheader-message-type")
+			vrt.Assert(string(oh.Messages[i].Data) == string(ohw.Messages[i].Data), "objectheader-message-data")
+		}
+	}
+	vrt.Covered("objectheader-end")
+}
+
+// link message: all flag combinations of {creation order, link type field, charset}, length-size 0..3, name 1..3 bytes,
+// hard link address symbolic
+func VerifH_C11_link() {
+	sb := &Superblock{Version: 2, OffsetSize: 8, LengthSize: 8, Endianness: binary.LittleEndian}
+	flags := uint8(vrt.Choice(4)) // size of length field
+	if vrt.Bool() {
+		flags |= LinkFlagCreationOrderBit
+	}
+	if vrt.Bool() {
+		flags |= LinkFlagLinkTypeFieldBit
+	}
+	if vrt.Bool() {
+		flags |= LinkFlagCharSetBit
+	}
+	nl := 1 + vrt.Choice(3)
+	nb := vrt.Bytes(nl)
+	for _, c := range nb {
+		vrt.Assume(c != 0)
+	}
+	addr := make([]byte, 8)
+	binary.LittleEndian.PutUint64(addr, vrt.U64())
+	lm := &LinkMessage{Version: 1, Flags: flags, Type: LinkTypeHard, CreationOrder: vrt.U64(), CharSet: vrt.U8() & 1, Name: string(nb), LinkValue: addr}
+	buf, err := EncodeLinkMessage(lm, sb)
+	vrt.AssertNoErr(err, "link-encode-accepts-valid")
+	got, err := ParseLinkMessage(buf, sb)
+	vrt.AssertNoErr(err, "link-decode-accepts-encoded")
+	vrt.Assert(got.Flags == flags, "link-flags")
+	vrt.Assert(got.Name == lm.Name, "link-name")
+	vrt.Assert(got.Type == LinkTypeHard, "link-type")
+	if flags&LinkFlagCreationOrderBit != 0 {
+		vrt.Assert(got.CreationOrder == lm.CreationOrder, "link-creation-order")
+	}
+	if flags&LinkFlagCharSetBit != 0 {
+		vrt.Assert(got.CharSet == lm.CharSet, "link-charset")
+	}
+	vrt.Assert(string(got.LinkValue) == string(addr), "link-value")
+	buf2, _ := EncodeLinkMessage(lm, sb)
+	vrt.Assert(string(buf) == string(buf2), "link-deterministic")
+	vrt.Covered("link-end")
+}
+
+// link info and attribute info messages
+func VerifH_C11_linkinfo() {
+	sb := &Superblock{Version: 2, OffsetSize: 8, LengthSize: 8, Endianness: binary.LittleEndian}
+	lim := &LinkInfoMessage{Version: 0, Flags: uint8(vrt.Choice(4)), MaxCreationOrder: vrt.I64() & 0x7FFFFFFFFFFFFFFF, FractalHeapAddress: vrt.U64(), NameBTreeAddress: vrt.U64(), CreationOrderBTreeAddress: vrt.U64()}
+	buf, err := EncodeLinkInfoMessage(lim, sb)
+	vrt.AssertNoErr(err, "linkinfo-encode-accepts-valid")
+	got, err := ParseLinkInfoMessage(buf, sb)
+	vrt.AssertNoErr(err, "linkinfo-decode-accepts-encoded")
+	vrt.Assert(got.Flags == lim.Flags, "linkinfo-flags")
+	vrt.Assert(got.FractalHeapAddress == lim.FractalHeapAddress && got.NameBTreeAddress == lim.NameBTreeAddress, "linkinfo-addresses")
+	if lim.Flags&1 != 0 {
+		vrt.Assert(got.MaxCreationOrder == lim.MaxCreationOrder, "linkinfo-max-creation-order")
+	}
+	if lim.Flags&2 != 0 {
+		vrt.Assert(got.CreationOrderBTreeAddress == lim.CreationOrderBTreeAddress, "linkinfo-creation-order-btree")
+	}
+	vrt.Covered("linkinfo-end")
+}
+
+func VerifH_C11_attrinfo() {
+	sb := &Superblock{Version: 2, OffsetSize: 8, LengthSize: 8, Endianness: binary.LittleEndian}
+	aim := &AttributeInfoMessage{Version: 0, Flags: 0, FractalHeapAddr: vrt.U64(), BTreeNameIndexAddr: vrt.U64()}
+	buf, err := EncodeAttributeInfoMessage(aim, sb)
+	vrt.AssertNoErr(err, "attrinfo-encode-accepts-valid")
+	got, err := ParseAttributeInfoMessage(buf, sb)
+	vrt.AssertNoErr(err, "attrinfo-decode-accepts-encoded")
+	vrt.Assert(got.FractalHeapAddr == aim.FractalHeapAddr && got.BTreeNameIndexAddr == aim.BTreeNameIndexAddr, "attrinfo-addresses")
+	vrt.Covered("attrinfo-end")
+}
+
+// layout message: contiguous (symbolic address/size) and chunked (rank 1..3, symbolic chunk extents < 2^32)
+func VerifH_C11_layout() {
+	sb := &Superblock{Version: 2, OffsetSize: 8, LengthSize: 8, Endianness: binary.LittleEndian}
+	if vrt.Bool() {
+		size, addr := vrt.U64(), vrt.U64()
+		buf, err := EncodeLayoutMessage(LayoutContiguous, size, addr, sb, nil)
+		vrt.AssertNoErr(err, "layout-encode-accepts-valid")
+		got, err := ParseDataLayoutMessage(buf, sb)
+		vrt.AssertNoErr(err, "layout-decode-accepts-encoded")
+		vrt.Assert(got.Class == LayoutContiguous, "layout-class")
+		vrt.Assert(got.DataAddress == addr && got.DataSize == size, "layout-contiguous-fields")
+	} else {
+		rank := 1 + vrt.Choice(3)
+		cd := make([]uint64, rank)
+		for i := range cd {
+			cd[i] = uint64(vrt.U32())
+			vrt.Assume(cd[i] != 0)
+		}
+		addr := vrt.U64()
+		buf, err := EncodeLayoutMessage(LayoutChunked, 0, addr, sb, cd)
+		vrt.AssertNoErr(err, "layout-encode-accepts-valid")
+		got, err := ParseDataLayoutMessage(buf, sb)
+		vrt.AssertNoErr(err, "layout-decode-accepts-encoded")
+		vrt.Assert(got.Class == LayoutChunked, "layout-class")
+		vrt.Assert(got.DataAddress == addr, "layout-chunked-address")
+		vrt.Assert(len(got.ChunkSize) >= rank, "layout-chunk-rank")
+		if len(got.ChunkSize) >= rank {
+			for i := range cd {
+				vrt.Assert(got.ChunkSize[i] == cd[i], "layout-chunk-dims")
+			}
+		}
+	}
+	vrt.Covered("layout-end")
+}
+
+// datatype message (fixed, float, string classes): class, size, bit field, properties
+func VerifH_C11_datatype() {
+	classes := []DatatypeClass{DatatypeFixed, DatatypeFloat, DatatypeString}
+	cl := classes[vrt.Choice(3)]
+	dt := &DatatypeMessage{Class: cl, Version: 1, Size: 1 + vrt.U32()&0xFF, ClassBitField: vrt.U32() & 0x00FFFFFF}
+	buf, err := EncodeDatatypeMessage(dt)
+	if err != nil {
+		return // the encoder may refuse a combination; then there is nothing to invert
+	}
+	got, err := ParseDatatypeMessage(buf)
+	vrt.AssertNoErr(err, "datatype-decode-accepts-encoded")
+	vrt.Assert(got.Class == cl, "datatype-class")
+	vrt.Assert(got.Size == dt.Size, "datatype-size")
+	vrt.Assert(got.ClassBitField == dt.ClassBitField, "datatype-bitfield")
+	buf2, _ := EncodeDatatypeMessage(dt)
+	vrt.Assert(string(buf) == string(buf2), "datatype-deterministic")
+	vrt.Covered("datatype-end")
+}
+
+// attribute message: name 1..3 bytes, int32 scalar / 1-D [2] payload symbolic
+func VerifH_C11_attribute() {
+	nl := 1 + vrt.Choice(3)
+	nb := vrt.Bytes(nl)
+	for _, c := range nb {
+		vrt.Assume(c != 0)
+	}
+	n := 1 + vrt.Choice(2)
+	data := vrt.Bytes(4 * n)
+	dt := &DatatypeMessage{Class: DatatypeFixed, Version: 1, Size: 4, ClassBitField: 0x08, Properties: []byte{0, 0, 32, 0}}
+	ds := &DataspaceMessage{Version: 1, Type: DataspaceSimple, Dimensions: []uint64{uint64(n)}}
+	buf, err := EncodeAttributeMessage(string(nb), dt, ds, data)
+	vrt.AssertNoErr(err, "attribute-encode-accepts-valid")
+	got, err := ParseAttributeMessage(buf, binary.LittleEndian)
+	vrt.AssertNoErr(err, "attribute-decode-accepts-encoded")
+	vrt.Assert(got.Name == string(nb), "attribute-name")
+	vrt.Assert(got.Datatype != nil && got.Datatype.Class == DatatypeFixed && got.Datatype.Size == 4, "attribute-datatype")
+	vrt.Assert(got.Dataspace != nil && len(got.Dataspace.Dimensions) == 1 && got.Dataspace.Dimensions[0] == uint64(n), "attribute-dataspace")
+	vrt.Assert(string(got.Data) == string(data), "attribute-data")
+	vrt.Covered("attribute-end")
 }
